@@ -371,6 +371,28 @@ def run_case(case, ctx):
         except Exception as ex:
             ctx.violation(K + "same-seed/raised/%s" % type(ex).__name__, str(ex)[:150], cfg=cfg)
             continue
+        # ---- and a fit under the poisoned allocator (vrt/poison.py): a fitted model does not depend on what the
+        # buffers obtained from numpy.empty contained
+        try:
+            from vrt.poison import Poison
+            from vrt.props.c04 import EXTRA_MODULES
+            mods = sorted({k.__module__ for k in type(e).__mro__ if k.__module__.startswith("mlinsights")}
+                          | set(EXTRA_MODULES.get(spec.name, ())))
+            if not threaded:
+                ep = spec.make(vi)
+                numpy.random.seed(sub + 23)
+                with Poison(mods) as pz:
+                    spec.fit(ep, _copy(A))
+                    op = spec.outputs(ep, spec.query(numpy.random.RandomState(9), A))
+                ctx.hit("same_seed.poisoned_allocator")
+                ctx.extra["poisoned_buffers"] = ctx.extra.get("poisoned_buffers", 0) + pz.allocations
+                badp = [m for m in outs[0][0] if m not in op or not exact(outs[0][0][m], op[m])]
+                if badp:
+                    ctx.violation(K + "fit/reads-uninitialised-memory", "a fit under the poisoned allocator gives "
+                                  "another %s than the same fit with the ordinary allocator: a buffer is read before "
+                                  "it is written" % badp[0], cfg=cfg)
+        except Exception as ex:
+            ctx.violation(K + "poisoned-allocator/raised/%s" % type(ex).__name__, str(ex)[:150], cfg=cfg)
         ctx.hit("same_seed.outputs")
         bad = [m for m in outs[0][0] if not exact(outs[0][0][m], outs[1][0][m])]
         threads = any(k.split("__")[-1] == "n_jobs" and v not in (None, 1) for k, v in e.get_params().items())
